@@ -271,7 +271,7 @@ func zero(t types.Type) value {
 	case *types.Map:
 		return (*omap)(nil)
 	case *types.TypeParam:
-		panic(unsupported{"zero of type parameter " + t.String()})
+		panic(unsupported{reason: "zero of type parameter " + t.String()})
 	case *types.Signature:
 		return (*ssa.Function)(nil)
 	}
@@ -961,7 +961,10 @@ func typeAssert(instr *ssa.TypeAssert, itf iface) value {
 
 	if err != "" {
 		if !instr.CommaOk {
-			panic(err)
+			if itf.t == nil && isStubType(instr.AssertedType) {
+				return zero(instr.AssertedType)
+			}
+			panic(targetPanic{msg: err})
 		}
 		return tuple{zero(instr.AssertedType), false}
 	}
